@@ -185,7 +185,9 @@ func ximageCompare(k *mon.Case, f *sfnt.Font, info *fontgen.Info, out []byte, de
 	}
 	for gid := 0; gid < ng; gid += step {
 		// x/image scales in 32-bit 26.6 arithmetic: stay inside its range
-		fits := func(v float64) bool { return v*float64(f.UnitsPerEm)*64 < 1<<30 && v*float64(f.UnitsPerEm)*64 > -(1 << 30) }
+		fits := func(v float64) bool {
+			return v*float64(f.UnitsPerEm)*64 < 1<<30 && v*float64(f.UnitsPerEm)*64 > -(1<<30)
+		}
 		bb := f.GlyphBBox(glyphID(gid))
 		boxFits := fits(float64(bb.LLx)) && fits(float64(bb.LLy)) && fits(float64(bb.URx)) && fits(float64(bb.URy))
 		adv, err := xf.Advance(gid)
